@@ -9,7 +9,9 @@ import (
 
 	"cosmossdk.io/math"
 	abci "github.com/cometbft/cometbft/abci/types"
+	cmtsecp "github.com/cometbft/cometbft/crypto/secp256k1"
 	cmttypes "github.com/cometbft/cometbft/types"
+	"github.com/cosmos/cosmos-sdk/crypto/keys/secp256k1"
 	sdk "github.com/cosmos/cosmos-sdk/types"
 	"github.com/ethereum/go-ethereum/common"
 	"github.com/ethereum/go-ethereum/core/types/goattypes"
@@ -128,11 +130,12 @@ type blockOps struct {
 }
 
 type lockHist struct {
-	c    *vc.Ctx
-	cfg  lockCfg
-	r    *rand.Rand
-	ch   *world.Chain
-	vals []*hVal
+	memberVal bool // a validator with a relayer voter's key has been created
+	c         *vc.Ctx
+	cfg       lockCfg
+	r         *rand.Rand
+	ch        *world.Chain
+	vals      []*hVal
 	// ground truth
 	unlocks   map[uint64]*unlockRec
 	claims    map[uint64]*claimRec
@@ -339,6 +342,20 @@ func (h *lockHist) gen() *blockOps {
 			o.Reqs.Locking.Creates = append(o.Reqs.Locking.Creates, &goattypes.CreateRequest{Validator: v.Addr, Pubkey: uncompressed64(k)})
 			o.creates = append(o.creates, len(h.vals)-1)
 			o.Desc = append(o.Desc, fmt.Sprintf("create v%d", len(h.vals)-1))
+		}
+		if nm := len(h.ch.W.Members); nm >= 1 && !h.memberVal && roll(15) {
+			// a validator whose account already exists (it is a relayer voter's): the record is created but parked
+			// inactive, and whatever is locked to it later stays without voting power
+			m := h.ch.W.Members[nm-1]
+			p := cmtsecp.PrivKey(append([]byte(nil), m.Tx.Key...))
+			k := world.ValKey{Priv: p, Pub: &secp256k1.PubKey{Key: p.PubKey().Bytes()}, Cons: p.PubKey().Address()}
+			v := &hVal{Key: k, Addr: common.BytesToAddress(k.Cons)}
+			h.vals = append(h.vals, v)
+			h.memberVal = true
+			o.Reqs.Locking.Creates = append(o.Reqs.Locking.Creates, &goattypes.CreateRequest{Validator: v.Addr, Pubkey: uncompressed64(k)})
+			o.creates = append(o.creates, len(h.vals)-1)
+			o.Desc = append(o.Desc, fmt.Sprintf("create v%d with the key of a relayer voter (account exists)", len(h.vals)-1))
+			h.c.Count("validators_created_on_an_existing_account", 1)
 		}
 		if adv && roll(20) { // create an existing validator again
 			vi := h.pickVal(true)
